@@ -438,16 +438,19 @@ def link_generator(ctx, mutate=None, tag=""):
                    "population and weights are both maps over the SAME group list in declaration order (group i <-> weight i)", ok, repr(t), ("C03", "C10", "C02"),
                    model={"template": repr(t)})
         pools = [[("A", 1.0), ("B", 2.0)], [("b", 0.2), ("a", 0.2), ("c", 0.6)], [(0, 1.0), (1.5, 0.5), ("0", 3.4)], [("it's", 1.0), ("C:\\temp", 1e-9), ("", 1e9)], [(9007199254740993, 1.0)],
-                 [("a", 1234567.0), ("b", 7654321.0)], [("a", 0.1234567), ("b", 0.7654321), ("c", 123456789.125)]]
+                 [("a", 1234567.0), ("b", 7654321.0)], [("a", 0.1234567), ("b", 0.7654321), ("c", 123456789.125)],
+                 # a label listed more than once keeps every one of its slots, in place; decimals that start with 0; whole and round weights
+                 [("A", 1.0), ("B", 2.0), ("A", 3.0)], [("blue", 1.0), ("green", 1.0), ("blue", 1.0), ("red", 0.0), ("green", 2.0)],
+                 [("x", 1.05), ("y", 20.02), ("z", 0.05), ("w", 10.0), ("v", 100.0), ("u", 0.0)], [(1.0, 1.0), (10.05, 2.0), (10, 3.0), ("10.0", 4.0)]]
         for i, pool in enumerate(pools):
             I = T.Interp({gs.id: [{"group_definition": d, "group_weight": w} for d, w in pool]}, base_depth=3, placeholder=placeholder)
             real = T.render(t, I)
             labels = ", ".join("%s weighted %s" % (_dsl_lit(d), _dsl_lit(w)) for d, w in pool)
             cases.append(Case(pre + "_generate_group_return_statement/[%d]" % i, GFN + "_generate_group_return_statement",
                               "`return partial(deterministic_choice, population=[...], weights=[...])` with exact labels (value and type) in declaration order",
-                              "def f():\n\tdef g():\n\t\tif x:\n" + real, "def f():\n\tdef g():\n\t\tif x:\n" + D.group_return(3, pool), ("C03", "C05", "C10", "C13", "C02"),
+                              "def f():\n\tdef g():\n\t\tif x:\n" + real, "def f():\n\tdef g():\n\t\tif x:\n" + D.group_return(3, pool), ("C03", "C05", "C10", "C13", "C02", "C01", "C12"),
                               note={"groups": repr(pool), "program": 'def e { splitters: uid return %s }' % labels}, replay=case_replay))
-    run("groups", "_generate_group_return_statement", ("C03", "C05", "C10", "C13", "C02"), groups)
+    run("groups", "_generate_group_return_statement", ("C03", "C05", "C10", "C13", "C02", "C01", "C12"), groups)
 
     # ---- F. conditionals -----------------------------------------------------------------------------------------
     def conds():
